@@ -124,8 +124,13 @@ def entryBody (ts : List Tok) : PR :=
     (entryLines (colonPart (keyPart ts).rest).rest).rest⟩
 
 /-- `parse_entry` (lossless.rs:138-211). The nodes of the comment loop are siblings of the ENTRY. -/
+def endsParagraph : List Tok → Bool
+  | [] => true
+  | t :: _ => t.1 == .NEWLINE
+
 def parseEntry (ts : List Tok) : PR :=
-  if (commentLoop ts).early then ⟨(commentLoop ts).nodes, (commentLoop ts).errs, (commentLoop ts).rest⟩
+  if (commentLoop ts).early || endsParagraph (commentLoop ts).rest then
+    ⟨(commentLoop ts).nodes, (commentLoop ts).errs, (commentLoop ts).rest⟩
   else
     ⟨(commentLoop ts).nodes ++ (entryBody (commentLoop ts).rest).nodes,
       (commentLoop ts).errs ++ (entryBody (commentLoop ts).rest).errs,
@@ -220,15 +225,17 @@ theorem entryBody_progress (t : Tok) (ts) : (entryBody (t :: ts)).rest.length < 
   simp only [entryBody]
   omega
 
-/-- `parse_entry` makes progress on a non-empty token list -/
-theorem parseEntry_progress (t : Tok) (ts : List Tok) :
+/-- `parse_entry` makes progress when called as `parse_paragraph` calls it: on a token list
+    that does not start with NEWLINE -/
+theorem parseEntry_progress (t : Tok) (ts : List Tok) (hn : t.1 ≠ .NEWLINE) :
     (parseEntry (t :: ts)).rest.length < (t :: ts).length := by
   by_cases hc : t.1 = .COMMENT
   · have h1 := commentLoop_progress t ts hc
     have h2 := entryBody_len (commentLoop (t :: ts)).rest
     simp only [parseEntry]; split <;> simp only [] <;> omega
   · have h2 := entryBody_progress t ts
-    simp only [parseEntry, commentLoop_id t ts hc]
+    have he : endsParagraph (t :: ts) = false := by simp [endsParagraph, hn]
+    simp only [parseEntry, commentLoop_id t ts hc, he]
     simpa using h2
 
 /-- body of `parse_paragraph` (lossless.rs:215-217): entries until NEWLINE or end -/
@@ -236,13 +243,13 @@ def paraLoop (ts : List Tok) : PR :=
   match ts with
   | [] => ⟨[], [], []⟩
   | t :: ts' =>
-    if t.1 = .NEWLINE then ⟨[], [], t :: ts'⟩
+    if h : t.1 = .NEWLINE then ⟨[], [], t :: ts'⟩
     else
       let e := parseEntry (t :: ts')
       let r := paraLoop e.rest
       ⟨e.nodes ++ r.nodes, e.errs ++ r.errs, r.rest⟩
 termination_by ts.length
-decreasing_by exact parseEntry_progress t ts'
+decreasing_by exact parseEntry_progress t ts' h
 
 theorem paraLoop_leaves (ts) : leavesList (paraLoop ts).nodes ++ (paraLoop ts).rest = ts := by
   fun_induction paraLoop ts
@@ -307,10 +314,10 @@ theorem skipWsNl_head (ts) : ∀ t r, (skipWsNl ts).2 = t :: r → isBlankStart 
 
 theorem paraLoop_progress (t : Tok) (ts) (h : t.1 ≠ .NEWLINE) :
     (paraLoop (t :: ts)).rest.length < (t :: ts).length := by
-  have h1 := parseEntry_progress t ts
+  have h1 := parseEntry_progress t ts h
   have h2 := congrArg List.length (paraLoop_leaves (parseEntry (t :: ts)).rest)
   unfold paraLoop
-  simp only [h, ↓reduceIte]
+  simp only [h, ↓reduceDIte]
   simp only [List.length_append] at h2
   omega
 
